@@ -146,6 +146,19 @@ def oracle_valid(case):
         if i["severity"] == 1:
             out.bad(f"valid-sidecar-rejected:{i['code']}", f"{json.dumps(case['doc'])[:700]} -> {i['code']}: "
                                                            f"{i['message'][:200]}")
+    # the same Sidecar object validated repeatedly, with definitions supplied from outside
+    from hed.models.sidecar import Sidecar
+    from hed.models.definition_dict import DefinitionDict
+    sch = hedenv.schema(VERSION)
+    sc = Sidecar(io.StringIO(json.dumps(case["doc"])), name="generated")
+    extra = DefinitionDict(["(Definition/OutsideDef, (Item-count/3))"], sch)
+    runs = [sc.validate(sch, extra_def_dicts=extra) for _ in range(3)]
+    for k, r in enumerate(runs):
+        errs = sorted({i["code"] for i in r if i["severity"] == 1})
+        if errs:
+            out.bad(f"valid-sidecar-rejected-on-validation-{k + 1}-with-extra-definitions:{'+'.join(errs)}",
+                    f"{json.dumps(case['doc'])[:600]}")
+            break
     return out
 
 
